@@ -610,7 +610,7 @@ func (fr *Frame) applyContract(st *State, con *Contract, fn *ssa.Function, args 
 		}
 	} else {
 		// the callee may allocate: its results (and what it stores) may be objects that did not exist before the call
-		fr.afterCallAlloc(st, con, resT)
+		fr.afterCallAlloc(st, pre, con, resT, env)
 		for _, as := range con.Assigns {
 			fr.havocLoc(st, pre, as.Expr, env, con.Pkg)
 		}
@@ -933,7 +933,7 @@ func (fr *Frame) applyIfaceContract(st *State, con *Contract, c *ssa.CallCommon,
 		st.heap = g.havocHeap(st.heap, true)
 		g.bumpTop(st)
 	} else {
-		fr.afterCallAlloc(st, con, resT)
+		fr.afterCallAlloc(st, pre, con, resT, env)
 		for _, as := range con.Assigns {
 			fr.havocLoc(st, pre, as.Expr, env, con.Pkg)
 		}
@@ -971,7 +971,7 @@ func (fr *Frame) applyFuncTypeContract(st *State, con *Contract, c *ssa.CallComm
 		st.heap = g.havocHeap(st.heap, true)
 		g.bumpTop(st)
 	} else {
-		fr.afterCallAlloc(st, con, resT)
+		fr.afterCallAlloc(st, pre, con, resT, env)
 		for _, as := range con.Assigns {
 			fr.havocLoc(st, pre, as.Expr, env, con.Pkg)
 		}
@@ -1322,33 +1322,96 @@ func (fr *Frame) runDefers(st *State) {
 // afterCallAlloc: a contract call with an assigns clause may still allocate. When references can come back (through
 // the results or the assigned locations) the objects created by the callee have unknown contents: the heap is
 // layered (old objects keep their contents, newer ones are unconstrained). Otherwise only the watermark moves.
-func (fr *Frame) afterCallAlloc(st *State, con *Contract, resT types.Type) {
+func (fr *Frame) afterCallAlloc(st, pre *State, con *Contract, resT types.Type, env *callEnv) {
 	g := fr.g
-	if typeHasRef(resT, 0) || len(con.Assigns) > 0 {
+	need := typeHasRef(resT, 0, false)
+	for _, en := range con.Ensures {
+		if strings.Contains(en.Text, "fresh(") {
+			need = true
+		}
+	}
+	for _, as := range con.Assigns {
+		if need {
+			break
+		}
+		if t := fr.assignLocType(pre, as.Expr, env, con.Pkg); t == nil || typeHasRef(t, 0, true) {
+			need = true
+		}
+	}
+	if need {
 		st.heap = g.layerHeap(st.heap)
 		return
 	}
+	if !typeHasRef(resT, 0, true) {
+		return // nothing the callee may have allocated can be reached by the caller
+	}
+	// objects reachable only through interface values the callee returns (errors, boxed values) are not given
+	// unknown contents of their own: their fields read as unknown values that refer to older objects
 	g.bumpTop(st)
 }
 
-func typeHasRef(t types.Type, depth int) bool {
+// assignLocType: the Go type stored at an assigns location (nil when unknown; ghost variables hold no references).
+func (fr *Frame) assignLocType(pre *State, e SExpr, env *callEnv, pkg string) (t types.Type) {
+	g := fr.g
+	defer func() {
+		if r := recover(); r != nil {
+			if _, ok := r.(engineError); ok {
+				t = nil
+				return
+			}
+			panic(r)
+		}
+	}()
+	ctx := &specCtx{fr: fr, st: pre, old: pre, kind: ctxCallPre, call: env, pkg: pkg, assumed: true}
+	switch x := e.(type) {
+	case *SIdent:
+		if _, ok := g.P.specs.Ghosts[x.Name]; ok {
+			return types.Typ[types.Int]
+		}
+		sv := fr.evalSpec(e, ctx)
+		if p, ok := sv.T.Underlying().(*types.Pointer); ok {
+			return p.Elem()
+		}
+		return sv.T
+	case *SSel:
+		base := fr.evalSpec(x.X, ctx)
+		_, ft := fr.fieldAddr(base, x.Name)
+		return ft
+	case *SUnary:
+		if x.Op == "*" {
+			return fr.assignLocType(pre, x.X, env, pkg)
+		}
+	case *SCall:
+		if x.Fun == "elems" && len(x.Args) == 1 {
+			sv := fr.evalSpec(x.Args[0], ctx)
+			if sl, ok := sv.T.Underlying().(*types.Slice); ok {
+				return sl.Elem()
+			}
+		}
+	}
+	return nil
+}
+
+func typeHasRef(t types.Type, depth int, ifaces bool) bool {
 	if t == nil || depth > 4 {
 		return t != nil
 	}
 	switch u := t.Underlying().(type) {
-	case *types.Pointer, *types.Map, *types.Chan, *types.Slice, *types.Interface, *types.Signature:
+	case *types.Pointer, *types.Map, *types.Chan, *types.Slice, *types.Signature:
 		return true
+	case *types.Interface:
+		return ifaces
 	case *types.Struct:
 		for i := 0; i < u.NumFields(); i++ {
-			if typeHasRef(u.Field(i).Type(), depth+1) {
+			if typeHasRef(u.Field(i).Type(), depth+1, ifaces) {
 				return true
 			}
 		}
 	case *types.Array:
-		return typeHasRef(u.Elem(), depth+1)
+		return typeHasRef(u.Elem(), depth+1, ifaces)
 	case *types.Tuple:
 		for i := 0; i < u.Len(); i++ {
-			if typeHasRef(u.At(i).Type(), depth+1) {
+			if typeHasRef(u.At(i).Type(), depth+1, ifaces) {
 				return true
 			}
 		}
